@@ -118,6 +118,8 @@ Steps(st, op, D) ==
          IN {R(s2, OK)}
     [] op.k = "dropv" -> {R(Drop(st, op.key), OK)}
     [] op.k = "createsc" -> {R([st EXCEPT !.s2 = TRUE], OK)}
+    [] op.k = "touchdb" ->           \* CREATE DATABASE IF NOT EXISTS <this database> / a further connect to it: declares, drops, replaces nothing
+         {R(st, OK)}
     [] op.k = "dropsc" ->            \* DROP SCHEMA S2 (cascades)
          {R([st EXCEPT !.s2 = FALSE, !.obj = [k \in Keys |-> IF k[1] = "S2" THEN NoObj ELSE @[k]]], OK)}
 
@@ -141,8 +143,12 @@ Ops(st) ==
   \cup {o \in [k : {"createv"}, key : {<<s, VName>> : s \in {x \in SchemasUsed : x = "S1" \/ st.s2}}, src : Tables(st)] : ~Exists(st, o.key) /\ o.src[1] = o.key[1]}
   \cup [k : {"dropv"}, key : {k \in Keys : k[2] = VName /\ Exists(st, k)}]
   \cup (IF "S2" \in SchemasUsed THEN (IF st.s2 THEN [k : {"dropsc"}] ELSE [k : {"createsc"}]) ELSE {})
-  \cup (IF "ist" \in ReadsUsed THEN [k : {"ist", "isv", "showsc", "isd", "pk"}] ELSE {})
-  \cup (IF "obj" \in ReadsUsed THEN [k : {"isc", "desc", "star"}, key : {k \in Keys : k[1] \in SchemasUsed}] ELSE {})
+  \cup [k : {"touchdb"}, form : {"create_if_not_exists", "connect"}]
+  \* via: the view is read by a session of this database ("own") or, database-qualified, by a session whose current database
+  \* is another one ("other") - the same view of the same catalog
+  \cup (IF "ist" \in ReadsUsed THEN [k : {"ist", "isv"}, via : {"own", "other"}] \cup [k : {"showsc", "isd", "pk"}] ELSE {})
+  \cup (IF "obj" \in ReadsUsed THEN [k : {"isc"}, key : {k \in Keys : k[1] \in SchemasUsed}, via : {"own", "other"}]
+                                    \cup [k : {"desc", "star"}, key : {k \in Keys : k[1] \in SchemasUsed}] ELSE {})
   \cup (IF "show" \in ReadsUsed THEN [k : {"show"}, what : {"tables", "objects"}, scope : {"account", "database"} \cup SchemasUsed] ELSE {})
 
 \* ---- C09 on the model ----
